@@ -184,6 +184,56 @@ class Lifter:
         self.counter = THIS(r.counter) if r.counter else None
         self.perm = THIS(r.perm) if getattr(r, 'perm', None) else None
         self.aux = {THIS(a): (a, k) for a, k in r.aux_kind.items()}
+        self.cur_seg = None      # the segment being lifted (context for loop-carried iterators)
+        self.walkers = {}        # (iterator name, loop id) -> auxiliary structure whose head the iterator denotes in every iteration
+
+    def lv_walk_aux(self, lv):
+        """a loop-carried local iterator that walks an auxiliary structure from its head (`for (auto it = m_ttl_list.begin(); it != B; ...)`):
+        the enclosing path declared / assigned it `aux.begin()` and the current iteration is guarded by a comparison of it with a
+        boundary (another iterator of that structure) -> THIS(aux) or None"""
+        seg = self.cur_seg
+        if seg is None or not (isinstance(lv, tuple) and len(lv) > 2 and lv[0] == 'lv'):
+            return None
+        name = lv[1]
+        guarded = False
+        for c in seg.conds:
+            raw = c[4] if len(c) > 4 else None
+            if isinstance(raw, tuple) and raw and raw[0] == 'cmp' and raw[1] in ('!=', '==') and (raw[1] == '!=') == bool(c[5]):
+                if any(isinstance(x, tuple) and x[:2] == ('lv', name) for x in (raw[2], raw[3])):
+                    guarded = True
+        if not guarded:
+            return None
+        p = seg.parent
+        found = None
+        while p is not None and found is None:
+            for e in p.effects:
+                if e.kind == 'LOCAL' and isinstance(e.loc, tuple) and len(e.loc) > 1 and e.loc[1] == name:
+                    v = e.val
+                    if isinstance(v, tuple) and len(v) > 2 and v[0] == 'q' and v[1] in ('begin', 'cbegin') and v[2] in self.aux:
+                        found = v[2]
+                    else:
+                        found = None
+            p = p.parent
+        return found
+
+    def lv_walk_aux_decl(self, lv):
+        """like lv_walk_aux, without requiring the guard (used to classify the guard itself)"""
+        seg = self.cur_seg
+        if seg is None or not (isinstance(lv, tuple) and len(lv) > 2 and lv[0] == 'lv'):
+            return None
+        name = lv[1]
+        p = seg.parent if seg.loop is not None else seg
+        found = None
+        while p is not None and found is None:
+            for e in p.effects:
+                if e.kind == 'LOCAL' and isinstance(e.loc, tuple) and len(e.loc) > 1 and e.loc[1] == name:
+                    v = e.val
+                    if isinstance(v, tuple) and len(v) > 2 and v[0] == 'q' and v[1] in ('begin', 'cbegin') and v[2] in self.aux:
+                        found = v[2]
+                    else:
+                        found = None
+            p = p.parent
+        return found
 
     # ---- slot ids -----------------------------------------------------------------------------
     def is_find(self, t):
@@ -221,6 +271,15 @@ class Lifter:
                     loc = ('q', 'back', self.order, (), it[3])
                 elif it[0] == 'q' and it[1] in ('begin', 'cbegin') and it[2] == self.order:
                     loc = ('q', 'front', self.order, (), it[4])
+            if loc[0] == 'fld' and loc[2] == 'second' and loc[1][0] == 'deref' and isinstance(loc[1][1], tuple) and loc[1][1][:1] == ('lv',):
+                hd = self.walkers.get((loc[1][1][1], loc[1][1][2])) if len(loc[1][1]) > 2 else None
+                if hd is not None:
+                    return Ent('AUXHEAD', hd, 0, sid)
+                wa = self.lv_walk_aux(loc[1][1])
+                if wa is not None:
+                    e = Ent('AUXNODE', self.aux[wa][0], 0, sid)
+                    e.walker = loc[1][1][1]
+                    return e
             if loc[0] == 'fld' and loc[2] == 'second' and loc[1][0] == 'elem' and loc[1][1] in self.aux:
                 # a node met while iterating over an auxiliary structure: RI, it files a bound slot
                 return Ent('AUXNODE', self.aux[loc[1][1]][0], 0, sid)
@@ -246,6 +305,13 @@ class Lifter:
                 p = self.part_value(it)
                 if p is not None and r.kind == 'slotvec':
                     return Ent('ATPART', p[0], p[1], sid)
+                if r.kind == 'slotvec' and is_ld(it) and it[1] == 0 and it[2][0] == 'fld' and r.backptrs.get(it[2][2]) == 'order' \
+                        and it[2][1][0] == 'idx' and it[2][1][1] == self.slots:
+                    # RI: the list node an element's stored position denotes carries that element's own slot id
+                    e = self.sid_entity(it[2][1][2])
+                    e2 = Ent(e.kind, e.arg, e.epoch, sid)
+                    e2.via_self = it[2][2]
+                    return e2
                 if it[0] == 'q' and it[1] in ('begin', 'cbegin') and it[2] in self.aux:
                     return Ent('AUXHEAD', self.aux[it[2]][0], it[4] or 0, sid)
             if loc[0] == 'q' and loc[1] in ('back', 'front') and loc[2] == self.order:
@@ -525,6 +591,17 @@ class Lifter:
             containers[t] = an
         if op in ('==', '!='):
             for x, y in ((a, b), (b, a)):
+                # it != ttl.upper_bound(now) with `it` walking the deadline-ordered ttl structure from its head: the node is in the
+                # expired prefix (key <= now); equality: the walk has reached the first live node (or the end)
+                if isinstance(x, tuple) and x[:1] == ('lv',) and isinstance(y, tuple) and len(y) > 3 and y[0] == 'q' and y[1] == 'upper_bound' \
+                        and y[2] in self.aux and self.aux[y[2]][1] == 'ttl' and len(y[3]) == 1 and isinstance(y[3][0], tuple) and y[3][0][:1] == ('now',) \
+                        and self.lv_walk_aux_decl(x) == y[2]:
+                    return ('SWEEP_GUARD', (x, self.aux[y[2]][0], y[3][0], y), op == '!=')
+                # std::next(e.m_ttl_position) == ttl.end(): the element's node is the last one (same fact as pos == std::prev(end()))
+                if isinstance(x, tuple) and len(x) > 2 and x[0] == 'adv' and x[1] == 1 and is_ld(x[2]) and x[2][2][0] == 'fld' \
+                        and r.backptrs.get(x[2][2][2]) in r.aux_kind and isinstance(y, tuple) and y and y[0] == 'q' and y[1] in ('end', 'cend') \
+                        and y[2] == THIS(r.backptrs[x[2][2][2]]):
+                    return ('IS_AUX_LAST', (self.elem_entity(x[2][2][1]), r.backptrs[x[2][2][2]]), op == '==')
                 # stored iterator of an element vs end() of the structure it points into
                 if isinstance(y, tuple) and y and y[0] == 'q' and y[1] in ('end', 'cend') and y[2] in containers:
                     tgt = containers[y[2]]
@@ -686,6 +763,246 @@ class Segment:
         self._lift()
         self._alias_pass()
         self._aux_alias_pass()
+        self._full_alias_pass()
+        if parent is None and loop is None:
+            self._sizediff_pass()
+
+    def scan_bound_guard(self, raw):
+        """`it != B` where `it` walks the ttl structure from its head and B is where an effect-free scan of that structure stopped: the
+        first node that is not expired by the call's clock sample (or the end) -> SWEEP_GUARD like `it != upper_bound(now)`"""
+        L = self.L
+        if not (isinstance(raw, tuple) and len(raw) == 4 and raw[0] == 'cmp' and raw[1] in ('!=', '==')):
+            return None
+        for x, y in ((raw[2], raw[3]), (raw[3], raw[2])):
+            if not (isinstance(x, tuple) and isinstance(y, tuple) and x[:1] == ('lv',) and y[:1] == ('lv',) and len(y) > 3 and y[3] == 'post'):
+                continue
+            aux = L.lv_walk_aux_decl(x)
+            if aux is None or L.aux[aux][1] != 'ttl':
+                continue
+            p = self.parent if self.loop is not None else self
+            scan = None
+            while p is not None and scan is None:
+                scan = next(((lp, segs) for lp, segs in p.loops if lp.id == y[2]), None)
+                owner = p
+                p = p.parent
+            if scan is None:
+                continue
+            lp, segs = scan
+            start = None
+            for e in owner.effects:
+                if e.kind == 'LOCAL' and isinstance(e.loc, tuple) and len(e.loc) > 1 and e.loc[1] == y[1] and e.how == 'decl':
+                    start = e.val
+            if not (isinstance(start, tuple) and len(start) > 2 and start[0] == 'q' and start[1] in ('begin', 'cbegin') and start[2] == aux):
+                continue
+            now = None
+            ok = True
+            for sg in segs:
+                if sg.state_effects() or sg.loops:
+                    ok = False
+                    break
+                ex = [c for c in sg.conds if c[0] == 'EXPIRED' and isinstance(c[1][0], Ent) and c[1][0].kind == 'AUXNODE']
+                steps = [e for e in sg.effects if e.kind == 'LOCAL' and isinstance(e.loc, tuple) and len(e.loc) > 1 and e.loc[1] == y[1]]
+                if sg.status == 'continue':
+                    if len(ex) != 1 or ex[0][2] is not True or len(steps) != 1 or not (isinstance(steps[0].val, tuple) and steps[0].val[:2] == ('adv', 1)):
+                        ok = False
+                        break
+                    now = ex[0][1][1]
+                elif sg.status == 'break':
+                    if len(ex) != 1 or ex[0][2] is not False or steps:
+                        ok = False
+                        break
+                else:
+                    ok = False
+                    break
+            exits = owner.loop_exits.get(id(lp), [])
+            if not ok or now is None or not all(any(c[0] == 'IT_AT_END' and c[2] is True for c in sg.conds) for sg in exits):
+                continue
+            return ('SWEEP_GUARD', (x, L.aux[aux][0], now, y), raw[1] == '!=')
+        return None
+
+    def sweep_as_head(self, lp, segs, exits):
+        """`for (it = ttl.begin(); it != B; ) { idx = it->second; ++it; erase entry idx; }` with B the end of the expired prefix: every
+        iteration removes the node it stands on and steps once, so the node visited is always the current head of the ttl structure.
+        When that invariant is established the iteration is renamed to what it is - `while (head expired) erase(head)` - and every
+        rule written for the head form applies.  Otherwise nothing is renamed (and the rules judge the walk as it stands)."""
+        guards = [c for sg in segs + exits for c in sg.conds if c[0] == 'SWEEP_GUARD']
+        if not guards:
+            return segs, exits
+        lv, auxname, now, bound = guards[0][1]
+        name = lv[1]
+        aux = THIS(auxname)
+        L = self.L
+        # the walker starts at the head, the boundary was taken from the same (unchanged) structure
+        start = None
+        for e in self.effects:
+            if e.kind == 'LOCAL' and isinstance(e.loc, tuple) and len(e.loc) > 1 and e.loc[1] == name:
+                start = e.val
+            if getattr(e, 'aux', None) == auxname and e.kind.startswith('AUX_'):
+                return segs, exits
+        if not (isinstance(start, tuple) and len(start) > 2 and start[0] == 'q' and start[1] in ('begin', 'cbegin') and start[2] == aux):
+            return segs, exits
+        for sg in segs:
+            g = [c for c in sg.conds if c[0] == 'SWEEP_GUARD']
+            if len(g) != 1 or g[0][1][0][1] != name or sg.loops:
+                return segs, exits
+            if sg.status != 'continue' or g[0][2] is not True:
+                if sg.state_effects():
+                    return segs, exits
+                continue
+            steps = [e for e in sg.effects if e.kind == 'LOCAL' and isinstance(e.loc, tuple) and len(e.loc) > 1 and e.loc[1] == name]
+            if len(steps) != 1 or not (isinstance(steps[0].val, tuple) and len(steps[0].val) > 2 and steps[0].val[0] == 'adv'
+                                       and steps[0].val[1] == 1 and steps[0].val[2][:2] == ('lv', name)):
+                return segs, exits
+            dels = [e for e in sg.effects if getattr(e, 'aux', None) == auxname and e.kind.startswith('AUX_')]
+            if len(dels) != 1 or dels[0].kind != 'AUX_DEL' or not (isinstance(dels[0].ent, Ent) and dels[0].ent.kind == 'AUXNODE'
+                                                                   and getattr(dels[0].ent, 'walker', None) == name):
+                return segs, exits
+            # the iterator leaves the node before the node is erased (erasing first would invalidate it)
+            pos_step = next((p for p, (k, i) in enumerate(sg.order) if k == 'eff' and sg.effects[i] is steps[0]), None)
+            pos_del = next((p for p, (k, i) in enumerate(sg.order) if k == 'eff' and sg.effects[i] is dels[0]), None)
+            if pos_step is None or pos_del is None or pos_step > pos_del:
+                return segs, exits
+
+        def ren(x):
+            if isinstance(x, Ent) and x.kind == 'AUXNODE' and getattr(x, 'walker', None) == name:
+                return Ent('AUXHEAD', auxname, 0, x.term)
+            return x
+        for sg in segs + exits:
+            for e in sg.effects:
+                if isinstance(getattr(e, 'ent', None), Ent):
+                    e.ent = ren(e.ent)
+            for j, c in enumerate(sg.conds):
+                if c[0] == 'SWEEP_GUARD':
+                    if c[2] is not True:
+                        # the walk reached the end of the expired prefix while standing on the head: the head (if any) is live
+                        d = ('ld', 0, ('fld', ('deref', ('q', 'begin', aux, (), 0)), 'first'))
+                        sg.conds[j] = ('EXPIRED', (Ent('AUXHEAD', auxname, 0, d), now, d), False) + tuple(c[3:])
+                    else:
+                        sg.conds[j] = ('TRUE', (), True) + tuple(c[3:])      # replaced by the EXPIRED / NONEMPTY facts derived from it
+                    continue
+                args = tuple(ren(a) for a in c[1])
+                sg.conds[j] = (c[0], args) + tuple(c[2:])
+        L.walkers[(name, lv[2])] = auxname
+        return segs, exits
+
+    def _full_alias_pass(self):
+        """a full cache has no free slot: the partition is end(), so the node in front of it (`*std::prev(m_lru_end)`) is `back()`.  On a
+        path that established FULL, the entity ATPART(-1) of the entry state is renamed BACK."""
+        if self.L.part is None or self.L.order is None or self.L.r.kind != 'slotvec':
+            return
+        full = next((c for c in self.conds if c[0] == 'FULL'), None)
+        if full is None or full[2] is not True:
+            return
+
+        def ren(ent):
+            if isinstance(ent, Ent) and ent.kind == 'ATPART' and ent.arg == -1 and (ent.epoch or 0) == 0:
+                return Ent('BACK', None, 0, ent.term)
+            return ent
+        # only names taken while the partition still has its entry value (before the first time the path moves it)
+        for k, i in self.order:
+            if k == 'eff':
+                e = self.effects[i]
+                if e.kind in ('PART',) or (e.kind == 'CNT' and getattr(e, 'also_part', False)):
+                    break
+                if isinstance(getattr(e, 'ent', None), Ent):
+                    e.ent = ren(e.ent)
+            elif k == 'cond':
+                c = self.conds[i]
+                args = tuple(ren(a) for a in c[1])
+                if any(a is not b for a, b in zip(args, c[1])):
+                    self.conds[i] = (c[0], args) + tuple(c[2:])
+
+    def _sizediff_pass(self):
+        """`const auto before = m_used_size; <loop> return before - m_used_size;` (or the size() of the key index / an auxiliary
+        structure): the returned count is the number of entries the loop(s) in between removed.  It is re-expressed as the per-item
+        tally every rule knows: a synthetic counter that starts at 0 where `before` is sampled and is stepped once per unit by which
+        an iteration shrinks the measured structure.  Anything else that changes the structure between the two samples leaves the
+        return value as it is (and the rules report it)."""
+        r = self.ret
+        if not (isinstance(r, tuple) and len(r) == 4 and r[0] == 'bin' and r[1] == '-'):
+            return
+        L = self.L
+
+        def measure(t):
+            if is_ld(t) and L.counter is not None and t[2] == L.counter:
+                return ('cnt', None), t[1]
+            if isinstance(t, tuple) and len(t) > 4 and t[0] == 'q' and t[1] == 'size' and not t[3]:
+                if t[2] == L.index:
+                    return ('index', None), (t[4] or 0) // 1000
+                if t[2] in L.aux:
+                    return ('aux', L.aux[t[2]][0]), (t[4] or 0) // 1000
+            return None
+        ma, mb = measure(r[2]), measure(r[3])
+        if ma is None or mb is None or ma[0] != mb[0] or not (ma[1] < mb[1] == 0):
+            return
+        what = ma[0]
+        # where `before` was sampled: the local whose declared value is the first operand
+        pos_a = None
+        for pos, (k, i) in enumerate(self.order):
+            if k == 'eff' and self.effects[i].kind == 'LOCAL' and getattr(self.effects[i], 'how', '') == 'decl':
+                v = self.effects[i].val
+                m2 = measure(v)
+                if m2 is not None and m2[0] == what:
+                    pos_a = pos
+        if pos_a is None:
+            return
+
+        def shrink(seg):
+            d = 0
+            for e in seg.effects:
+                if what[0] == 'cnt' and e.kind == 'CNT':
+                    if e.delta is None:
+                        return None
+                    d -= e.delta
+                elif what[0] == 'index':
+                    if e.kind == 'UNBIND':
+                        d += 1
+                    elif e.kind == 'BIND':
+                        d -= 1
+                    elif e.kind == 'INDEX_OP':
+                        return None
+                elif what[0] == 'aux' and getattr(e, 'aux', None) == what[1]:
+                    if e.kind == 'AUX_DEL':
+                        d += 1
+                    elif e.kind == 'AUX_ADD':
+                        d -= 1
+                    elif e.kind in ('AUX_ERASE_RANGE', 'AUX_OP'):
+                        return None
+            if seg.loops:
+                return None
+            return d
+        loops_after = []
+        for pos, (k, i) in enumerate(self.order):
+            if pos <= pos_a:
+                continue
+            if k == 'eff':
+                e = self.effects[i]
+                if (what[0] == 'cnt' and e.kind == 'CNT') or (what[0] == 'index' and e.kind in ('BIND', 'UNBIND', 'INDEX_OP')) or \
+                        (what[0] == 'aux' and getattr(e, 'aux', None) == what[1] and e.kind.startswith('AUX_')):
+                    return
+            elif k == 'loop':
+                loops_after.append(i)
+        if len(loops_after) != 1 or -ma[1] != 1:
+            return        # exactly one loop lies between the two samples: what it removes is what the difference counts
+        plan = []
+        for i in loops_after:
+            lp, segs = self.loops[i]
+            for sg in segs:
+                d = shrink(sg)
+                if d is None or d < 0:
+                    return
+                plan.append((sg, d))
+        name = '$removed'
+        lid = self.loops[loops_after[-1]][0].id
+        self.effects.append(Effect('LOCAL', self.effects[self.order[pos_a][1]].site, loc=('var', name), val=('int', 0), how='decl'))
+        self.order.insert(pos_a + 1, ('eff', len(self.effects) - 1))
+        for sg, d in plan:
+            for _ in range(d):
+                sg.effects.append(Effect('LOCAL', None, loc=('var', name), val=('add', ('lv', name, sg.loop.id if sg.loop is not None else lid, 'iter', None), 1),
+                                         how='+='))
+                sg.order.append(('eff', len(sg.effects) - 1))
+        self.ret_raw = self.ret
+        self.ret = ('lv', name, lid, 'post', None)
 
     def _aux_alias_pass(self):
         """ut_map / ut_set: after `ttl_list.splice(end(), ttl_list, node_of(E))` the node reached as back() / std::prev(end()) is E's node"""
@@ -749,6 +1066,16 @@ class Segment:
     def _lift(self):
         L = self.L
         r = L.r
+        prev_seg = L.cur_seg
+        L.cur_seg = self
+        try:
+            self._lift_events()
+        finally:
+            L.cur_seg = prev_seg
+
+    def _lift_events(self):
+        L = self.L
+        r = L.r
         if self.parent is not None:
             # decisions about the call's own parameters taken before the loop (const bool touch = peek == peek::no; ...) hold in every
             # iteration: they belong to the iteration's valuation as they would had the test been written inside the loop
@@ -761,9 +1088,21 @@ class Segment:
             k = e[0]
             if k == 'cond':
                 kind, args, pol = L.classify(e[1])
+                if kind == 'LV_EQ':
+                    up = self.scan_bound_guard(e[1])
+                    if up is not None:
+                        kind, args, pol = up
                 truth = (e[2] == pol)
                 self.conds.append((kind, args, truth, e[3], e[1], e[2]))
                 self.order.append(('cond', len(self.conds) - 1))
+                if kind == 'SWEEP_GUARD' and truth:
+                    # the visited node is expired by the call's clock sample, and there is at least one entry
+                    ent = Ent('AUXNODE', args[1], 0, ('ld', 0, ('fld', ('deref', args[0]), 'second')))
+                    ent.walker = args[0][1]
+                    self.conds.append(('EXPIRED', (ent, args[2], ('fld', ('deref', args[0]), 'first')), True, e[3], e[1], e[2]))
+                    self.order.append(('cond', len(self.conds) - 1))
+                    self.conds.append(('NONEMPTY', (), True, e[3], e[1], e[2]))
+                    self.order.append(('cond', len(self.conds) - 1))
                 if kind == 'ALLOW_IS' and truth:
                     ins, upd = ALLOW_TABLE[args[1]]
                     for k2, v2 in (('INS_OK', ins), ('UPD_OK', upd)):
@@ -783,6 +1122,7 @@ class Segment:
                 segs = [x for x in segs if feasible(x)[0]]
                 exits = [x for x in exits if feasible(x)[0]]
                 segs, exits = flag_controlled(segs, exits)
+                segs, exits = self.sweep_as_head(lp, segs, exits)
                 self.loops.append((lp, segs))
                 self.loop_exits[id(lp)] = exits
                 self.order.append(('loop', len(self.loops) - 1))
